@@ -337,6 +337,47 @@ func init() {
 				if n != 1 {
 					r.Undecided("C17.stop", FnName(ot), "expected one registration")
 				}
+				// handler ids are never reused while a handler may still be registered:
+				// the map key is a field that is only ever incremented, by one, right
+				// before the registration and under the same lock (an id derived from
+				// the map's size is reused after a removal and overwrites a live handler)
+				r.Rule("C17.fresh-id", "tick handler ids come from a counter that only grows", 1)
+				EachInstr(ot, func(in ssa.Instruction) {
+					mu, ok := in.(*ssa.MapUpdate)
+					if !ok {
+						return
+					}
+					key := Desc(mu.Key)
+					m := re(`^P0\.(\w+)$`).FindStringSubmatch(key)
+					okKey := false
+					why := "the key " + abbr(key, 1) + " is not a counter field of the ticker"
+					if m != nil {
+						field := m[1]
+						okKey = true
+						nStores := 0
+						for _, f := range r.W.AllFuncs {
+							if fnPkgRel(f) != "pkg/net/retransmission" {
+								continue
+							}
+							EachInstr(f, func(i2 ssa.Instruction) {
+								st, isSt := i2.(*ssa.Store)
+								if !isSt || !strings.HasSuffix(Desc(st.Addr), "."+field) {
+									return
+								}
+								nStores++
+								if Affine(st.Val).String() != "1*P0."+field+" + 1" || f != ot || !InstrBefore(st, mu) || len(held[st]) != 1 {
+									okKey = false
+									why = "the id field is written other than by +1 under the lock before the registration"
+								}
+							})
+						}
+						if nStores == 0 {
+							okKey = false
+							why = "the id field is never advanced"
+						}
+					}
+					r.Cond(okKey, "C17.fresh-id", FnName(ot)+"#handler-id", mu.Pos(), "a new handler gets an id no live handler can hold; "+why)
+				})
 			}
 		},
 	})
